@@ -118,104 +118,106 @@ func sameActions(got []*action, want []bindAct) string {
 	return ""
 }
 
-func TestVerifC17_BindRoundTrip(t *testing.T) {
-	rapid.Check(t, func(t *rapid.T) {
-		npairs := rapid.IntRange(1, 4).Draw(t, "npairs")
-		var parts []string
-		want := map[tui.Event][]bindAct{}
-		used := map[int]bool{}
-		var pairs []bindPair
-		for p := 0; p < npairs; p++ {
-			bp := genBindPair(t, p == npairs-1)
-			if used[bp.key] {
-				// same key again in one string: later pair replaces the earlier one
-				want[bindKeys[bp.key].e] = bp.acts
-			}
-			used[bp.key] = true
+func propC17BindRoundTrip(t *rapid.T) {
+	npairs := rapid.IntRange(1, 4).Draw(t, "npairs")
+	var parts []string
+	want := map[tui.Event][]bindAct{}
+	used := map[int]bool{}
+	var pairs []bindPair
+	for p := 0; p < npairs; p++ {
+		bp := genBindPair(t, p == npairs-1)
+		if used[bp.key] {
+			// same key again in one string: later pair replaces the earlier one
 			want[bindKeys[bp.key].e] = bp.acts
-			parts = append(parts, bp.text)
-			pairs = append(pairs, bp)
 		}
-		str := strings.Join(parts, ",")
-		keymap := map[tui.Event][]*action{}
-		if err := parseKeymap(keymap, str); err != nil {
-			t.Fatalf("--bind %q rejected: %v", str, err)
+		used[bp.key] = true
+		want[bindKeys[bp.key].e] = bp.acts
+		parts = append(parts, bp.text)
+		pairs = append(pairs, bp)
+	}
+	str := strings.Join(parts, ",")
+	keymap := map[tui.Event][]*action{}
+	if err := parseKeymap(keymap, str); err != nil {
+		t.Fatalf("--bind %q rejected: %v", str, err)
+	}
+	hard := false
+	nchain := 0
+	for _, bp := range pairs {
+		if len(bp.acts) > 1 {
+			nchain++
 		}
-		hard := false
-		nchain := 0
-		for _, bp := range pairs {
-			if len(bp.acts) > 1 {
-				nchain++
+		for _, a := range bp.acts {
+			if strings.ContainsAny(a.arg, "+,:()[]{}<>~!@#$%^&*;/|") {
+				hard = true
 			}
-			for _, a := range bp.acts {
-				if strings.ContainsAny(a.arg, "+,:()[]{}<>~!@#$%^&*;/|") {
-					hard = true
+		}
+	}
+	vstat.Case("C17/bind", str, hard || nchain > 0, fmt.Sprintf("pairs=%d", npairs))
+	if hard && vstat.WantSample("C17/bind") {
+		vstat.Sample("C17/bind", str)
+	}
+	for ev, acts := range want {
+		if msg := sameActions(keymap[ev], acts); msg != "" {
+			t.Fatalf("--bind %q: key %v: %s", str, ev, msg)
+		}
+	}
+	if len(keymap) != len(want) {
+		t.Fatalf("--bind %q: %d keys bound, expected %d", str, len(keymap), len(want))
+	}
+	// the same AST through every delimiter form gives the same keymap
+	form := rapid.IntRange(0, len(bindOpeners)-1).Draw(t, "reform")
+	var parts2 []string
+	okForm := true
+	for _, bp := range pairs {
+		var strs []string
+		for i := 0; i < len(bp.acts); i++ {
+			a := bp.acts[i]
+			if !a.has {
+				if a.name == "toggle-down" {
+					i++
 				}
+				strs = append(strs, a.name)
+				continue
 			}
+			c := string(bindClosers[form])
+			if strings.Contains(a.arg, c+"+") || strings.Contains(a.arg, c+",") {
+				okForm = false
+			}
+			strs = append(strs, a.name+string(bindOpeners[form])+a.arg+c)
 		}
-		vstat.Case("C17/bind", str, hard || nchain > 0, fmt.Sprintf("pairs=%d", npairs))
-		if hard && vstat.WantSample("C17/bind") {
-			vstat.Sample("C17/bind", str)
+		parts2 = append(parts2, bindKeys[bp.key].n+":"+strings.Join(strs, "+"))
+	}
+	if okForm {
+		str2 := strings.Join(parts2, ",")
+		km2 := map[tui.Event][]*action{}
+		if err := parseKeymap(km2, str2); err != nil {
+			t.Fatalf("--bind %q (same actions as %q, other delimiter form) rejected: %v", str2, str, err)
 		}
 		for ev, acts := range want {
-			if msg := sameActions(keymap[ev], acts); msg != "" {
-				t.Fatalf("--bind %q: key %v: %s", str, ev, msg)
+			if msg := sameActions(km2[ev], acts); msg != "" {
+				t.Fatalf("--bind %q (same actions as %q, other delimiter form): key %v: %s", str2, str, ev, msg)
 			}
 		}
-		if len(keymap) != len(want) {
-			t.Fatalf("--bind %q: %d keys bound, expected %d", str, len(keymap), len(want))
-		}
-		// the same AST through every delimiter form gives the same keymap
-		form := rapid.IntRange(0, len(bindOpeners)-1).Draw(t, "reform")
-		var parts2 []string
-		okForm := true
-		for _, bp := range pairs {
-			var strs []string
-			for i := 0; i < len(bp.acts); i++ {
-				a := bp.acts[i]
-				if !a.has {
-					if a.name == "toggle-down" {
-						i++
-					}
-					strs = append(strs, a.name)
-					continue
-				}
-				c := string(bindClosers[form])
-				if strings.Contains(a.arg, c+"+") || strings.Contains(a.arg, c+",") {
-					okForm = false
-				}
-				strs = append(strs, a.name+string(bindOpeners[form])+a.arg+c)
-			}
-			parts2 = append(parts2, bindKeys[bp.key].n+":"+strings.Join(strs, "+"))
-		}
-		if okForm {
-			str2 := strings.Join(parts2, ",")
-			km2 := map[tui.Event][]*action{}
-			if err := parseKeymap(km2, str2); err != nil {
-				t.Fatalf("--bind %q (same actions as %q, other delimiter form) rejected: %v", str2, str, err)
-			}
-			for ev, acts := range want {
-				if msg := sameActions(km2[ev], acts); msg != "" {
-					t.Fatalf("--bind %q (same actions as %q, other delimiter form): key %v: %s", str2, str, ev, msg)
-				}
-			}
-		}
-		// --bind K:X --bind K:+Y is --bind K:X+Y
-		bp1, bp2 := genBindPair(t, true), genBindPair(t, true)
-		k := bindKeys[bp1.key].n
-		x := bp1.text[len(k)+1:]
-		y := bp2.text[len(bindKeys[bp2.key].n)+1:]
-		kmA := map[tui.Event][]*action{}
-		if err := parseKeymap(kmA, k+":"+x); err != nil {
-			t.Fatalf("--bind %q rejected: %v", k+":"+x, err)
-		}
-		if err := parseKeymap(kmA, k+":+"+y); err != nil {
-			t.Fatalf("--bind %q rejected: %v", k+":+"+y, err)
-		}
-		if msg := sameActions(kmA[bindKeys[bp1.key].e], append(append([]bindAct{}, bp1.acts...), bp2.acts...)); msg != "" {
-			t.Fatalf("--bind %q --bind %q: %s", k+":"+x, k+":+"+y, msg)
-		}
-	})
+	}
+	// --bind K:X --bind K:+Y is --bind K:X+Y
+	bp1, bp2 := genBindPair(t, true), genBindPair(t, true)
+	k := bindKeys[bp1.key].n
+	x := bp1.text[len(k)+1:]
+	y := bp2.text[len(bindKeys[bp2.key].n)+1:]
+	kmA := map[tui.Event][]*action{}
+	if err := parseKeymap(kmA, k+":"+x); err != nil {
+		t.Fatalf("--bind %q rejected: %v", k+":"+x, err)
+	}
+	if err := parseKeymap(kmA, k+":+"+y); err != nil {
+		t.Fatalf("--bind %q rejected: %v", k+":+"+y, err)
+	}
+	if msg := sameActions(kmA[bindKeys[bp1.key].e], append(append([]bindAct{}, bp1.acts...), bp2.acts...)); msg != "" {
+		t.Fatalf("--bind %q --bind %q: %s", k+":"+x, k+":+"+y, msg)
+	}
+}
+
+func TestVerifC17_BindRoundTrip(t *testing.T) {
+	rapid.Check(t, propC17BindRoundTrip)
 }
 
 // ---------------------------------------------------------------- totality
@@ -309,33 +311,35 @@ func genArgv(t *rapid.T, max int) []string {
 	return args
 }
 
-func TestVerifC17_Totality(t *testing.T) {
+func propC17Totality(t *rapid.T) {
 	os.Unsetenv("FZF_DEFAULT_OPTS")
 	os.Unsetenv("FZF_DEFAULT_OPTS_FILE")
-	rapid.Check(t, func(t *rapid.T) {
-		args := genArgv(t, 6)
-		opts, err, pv := safeParse(false, args)
-		vstat.Case("C17/totality", fmt.Sprintf("%q", args), len(args) >= 2, fmt.Sprintf("accepted=%v", err == nil))
-		if pv != nil {
-			t.Fatalf("ParseOptions(%q) panicked: %v", args, pv)
+	args := genArgv(t, 6)
+	opts, err, pv := safeParse(false, args)
+	vstat.Case("C17/totality", fmt.Sprintf("%q", args), len(args) >= 2, fmt.Sprintf("accepted=%v", err == nil))
+	if pv != nil {
+		t.Fatalf("ParseOptions(%q) panicked: %v", args, pv)
+	}
+	if (opts == nil) == (err == nil) {
+		t.Fatalf("ParseOptions(%q) returned options=%v and error=%v", args, opts != nil, err)
+	}
+	if err != nil && strings.TrimSpace(err.Error()) == "" {
+		t.Fatalf("ParseOptions(%q): empty error message", args)
+	}
+	// parsing is repeatable: no hidden state survives a call
+	opts2, err2, pv2 := safeParse(false, args)
+	if pv2 != nil || (err == nil) != (err2 == nil) {
+		t.Fatalf("ParseOptions(%q) gives a different verdict the second time: %v / %v (panic %v)", args, err, err2, pv2)
+	}
+	if err == nil {
+		if d := nonFuncFieldsEqual(opts, opts2); d != "" {
+			t.Fatalf("ParseOptions(%q) gives different options the second time: %s", args, d)
 		}
-		if (opts == nil) == (err == nil) {
-			t.Fatalf("ParseOptions(%q) returned options=%v and error=%v", args, opts != nil, err)
-		}
-		if err != nil && strings.TrimSpace(err.Error()) == "" {
-			t.Fatalf("ParseOptions(%q): empty error message", args)
-		}
-		// parsing is repeatable: no hidden state survives a call
-		opts2, err2, pv2 := safeParse(false, args)
-		if pv2 != nil || (err == nil) != (err2 == nil) {
-			t.Fatalf("ParseOptions(%q) gives a different verdict the second time: %v / %v (panic %v)", args, err, err2, pv2)
-		}
-		if err == nil {
-			if d := nonFuncFieldsEqual(opts, opts2); d != "" {
-				t.Fatalf("ParseOptions(%q) gives different options the second time: %s", args, d)
-			}
-		}
-	})
+	}
+}
+
+func TestVerifC17_Totality(t *testing.T) {
+	rapid.Check(t, propC17Totality)
 }
 
 // later occurrences override earlier ones
@@ -492,56 +496,58 @@ func shellUnquote(w string) string {
 }
 
 // the pure parsers behind the options: totality on hostile strings
-func TestVerifC17_SubParsers(t *testing.T) {
+func propC17SubParsers(t *rapid.T) {
 	alpha := []rune("abcxyz0123456789 ,:;+-~!@#$%^&*()[]{}<>|/\\.'\"%é\n\t=")
 	words := []string{"ctrl-", "alt-", "shift-", "up", "down", "left", "right", "top", "bottom", "hidden", "wrap", "border-", "rounded", "follow", "cycle", "fg", "bg", "hl", "#ff00", "-1", "50%", "~", "execute", "reload", "preview", "change-", "transform-", "pos", "put", "print", "become", "unbind", "rebind", "toggle-"}
-	rapid.Check(t, func(t *rapid.T) {
-		var sb strings.Builder
-		n := rapid.IntRange(0, 8).Draw(t, "n")
-		for i := 0; i < n; i++ {
-			if rapid.Bool().Draw(t, "word") {
-				sb.WriteString(rapid.SampledFrom(words).Draw(t, "w"))
-			} else {
-				sb.WriteString(string(rapid.SliceOfN(rapid.SampledFrom(alpha), 1, 4).Draw(t, "s")))
-			}
+	var sb strings.Builder
+	n := rapid.IntRange(0, 8).Draw(t, "n")
+	for i := 0; i < n; i++ {
+		if rapid.Bool().Draw(t, "word") {
+			sb.WriteString(rapid.SampledFrom(words).Draw(t, "w"))
+		} else {
+			sb.WriteString(string(rapid.SliceOfN(rapid.SampledFrom(alpha), 1, 4).Draw(t, "s")))
 		}
-		s := sb.String()
-		which := rapid.IntRange(0, 7).Draw(t, "parser")
-		var pv interface{}
-		func() {
-			defer func() { pv = recover() }()
-			switch which {
-			case 0:
-				parseKeymap(map[tui.Event][]*action{}, s)
-			case 1:
-				parseSingleActionList(s)
-			case 2:
-				parseKeyChords(s, "x")
-			case 3:
-				po := defaultPreviewOpts("")
-				parsePreviewWindow(&po, s)
-			case 4:
-				parseTheme(tui.Dark256, s)
-			case 5:
-				parseTiebreak(s)
-				parseHeight(s, 0)
-				parseMargin("margin", s)
-			case 6:
-				nthTransformer(s)
-				splitNth(s)
-				delimiterRegexp(s)
-			case 7:
-				parseTmuxOptions(s, 0)
-				parseWalkerOpts(s)
-				parseInfoStyle(s)
-				parseBorder(s, true, true)
-			}
-		}()
-		vstat.Case("C17/sub-parsers", fmt.Sprint(which, s), len(s) > 3, fmt.Sprintf("parser=%d", which))
-		if pv != nil {
-			t.Fatalf("parser %d panicked on %q: %v", which, s, pv)
+	}
+	s := sb.String()
+	which := rapid.IntRange(0, 7).Draw(t, "parser")
+	var pv interface{}
+	func() {
+		defer func() { pv = recover() }()
+		switch which {
+		case 0:
+			parseKeymap(map[tui.Event][]*action{}, s)
+		case 1:
+			parseSingleActionList(s)
+		case 2:
+			parseKeyChords(s, "x")
+		case 3:
+			po := defaultPreviewOpts("")
+			parsePreviewWindow(&po, s)
+		case 4:
+			parseTheme(tui.Dark256, s)
+		case 5:
+			parseTiebreak(s)
+			parseHeight(s, 0)
+			parseMargin("margin", s)
+		case 6:
+			nthTransformer(s)
+			splitNth(s)
+			delimiterRegexp(s)
+		case 7:
+			parseTmuxOptions(s, 0)
+			parseWalkerOpts(s)
+			parseInfoStyle(s)
+			parseBorder(s, true, true)
 		}
-	})
+	}()
+	vstat.Case("C17/sub-parsers", fmt.Sprint(which, s), len(s) > 3, fmt.Sprintf("parser=%d", which))
+	if pv != nil {
+		t.Fatalf("parser %d panicked on %q: %v", which, s, pv)
+	}
+}
+
+func TestVerifC17_SubParsers(t *testing.T) {
+	rapid.Check(t, propC17SubParsers)
 }
 
 // Broader last-wins differential over the whole option vocabulary: for an
@@ -550,47 +556,49 @@ func TestVerifC17_SubParsers(t *testing.T) {
 var cumulativeOpts = map[string]bool{"--bind": true, "--color": true, "--expect": true, "--preview-window": true, "--toggle-sort": true, "--tmux": true, "--height": true,
 	"--history": true, "--history-size": true, "--walker-root": true, "--help": true, "--version": true, "--man": true, "--bash": true, "--zsh": true, "--fish": true}
 
-func TestVerifC17_LastWinsVocabulary(t *testing.T) {
+func propC17LastWinsVocabulary(t *rapid.T) {
 	os.Unsetenv("FZF_DEFAULT_OPTS")
 	os.Unsetenv("FZF_DEFAULT_OPTS_FILE")
 	voc := vocabulary()
 	styleVals := []string{"default", "minimal", "full", "full:double", "full:sharp"}
-	rapid.Check(t, func(t *rapid.T) {
-		o := rapid.SampledFrom(voc).Draw(t, "opt")
-		if cumulativeOpts[o] || !strings.HasPrefix(o, "--") {
-			return
-		}
-		vals := optValues
-		if o == "--style" {
-			vals = styleVals
-		}
-		v1 := rapid.SampledFrom(vals).Draw(t, "v1")
-		v2 := rapid.SampledFrom(vals).Draw(t, "v2")
-		// a few other options in between / before, e.g. ones a preset touches
-		ctx := rapid.SampledFrom([][]string{nil, nil, {"--header-border"}, {"--header-lines-border=sharp"}, {"--border=double"}, {"--info=inline"}, {"--style=full"}, {"--list-border"}, {"--input-border"}, {"--margin=1"}, {"--no-separator"}}).Draw(t, "context")
-		argsB := append(append([]string{}, ctx...), o+"="+v2)
-		argsA := append(append(append([]string{}, ctx...), o+"="+v1), o+"="+v2)
-		b, errB, pvB := safeParse(false, argsB)
-		if pvB != nil {
-			t.Fatalf("ParseOptions(%q) panicked: %v", argsB, pvB)
-		}
-		_, err1, pv1 := safeParse(false, append(append([]string{}, ctx...), o+"="+v1))
-		if pv1 != nil {
-			t.Fatalf("ParseOptions(%q) panicked: %v", o+"="+v1, pv1)
-		}
-		if errB != nil || err1 != nil {
-			return
-		}
-		a, errA, pvA := safeParse(false, argsA)
-		vstat.Case("C17/last-wins-vocabulary", fmt.Sprintf("%q", argsA), v1 != v2, "opt="+o)
-		if pvA != nil {
-			t.Fatalf("ParseOptions(%q) panicked: %v", argsA, pvA)
-		}
-		if errA != nil {
-			t.Fatalf("%q and %q are both accepted, but %q is rejected: %v", argsB, o+"="+v1, argsA, errA)
-		}
-		if d := nonFuncFieldsEqual(a, b); d != "" {
-			t.Fatalf("later occurrence does not override the earlier one: %q vs %q differ in %s", argsA, argsB, d)
-		}
-	})
+	o := rapid.SampledFrom(voc).Draw(t, "opt")
+	if cumulativeOpts[o] || !strings.HasPrefix(o, "--") {
+		return
+	}
+	vals := optValues
+	if o == "--style" {
+		vals = styleVals
+	}
+	v1 := rapid.SampledFrom(vals).Draw(t, "v1")
+	v2 := rapid.SampledFrom(vals).Draw(t, "v2")
+	// a few other options in between / before, e.g. ones a preset touches
+	ctx := rapid.SampledFrom([][]string{nil, nil, {"--header-border"}, {"--header-lines-border=sharp"}, {"--border=double"}, {"--info=inline"}, {"--style=full"}, {"--list-border"}, {"--input-border"}, {"--margin=1"}, {"--no-separator"}}).Draw(t, "context")
+	argsB := append(append([]string{}, ctx...), o+"="+v2)
+	argsA := append(append(append([]string{}, ctx...), o+"="+v1), o+"="+v2)
+	b, errB, pvB := safeParse(false, argsB)
+	if pvB != nil {
+		t.Fatalf("ParseOptions(%q) panicked: %v", argsB, pvB)
+	}
+	_, err1, pv1 := safeParse(false, append(append([]string{}, ctx...), o+"="+v1))
+	if pv1 != nil {
+		t.Fatalf("ParseOptions(%q) panicked: %v", o+"="+v1, pv1)
+	}
+	if errB != nil || err1 != nil {
+		return
+	}
+	a, errA, pvA := safeParse(false, argsA)
+	vstat.Case("C17/last-wins-vocabulary", fmt.Sprintf("%q", argsA), v1 != v2, "opt="+o)
+	if pvA != nil {
+		t.Fatalf("ParseOptions(%q) panicked: %v", argsA, pvA)
+	}
+	if errA != nil {
+		t.Fatalf("%q and %q are both accepted, but %q is rejected: %v", argsB, o+"="+v1, argsA, errA)
+	}
+	if d := nonFuncFieldsEqual(a, b); d != "" {
+		t.Fatalf("later occurrence does not override the earlier one: %q vs %q differ in %s", argsA, argsB, d)
+	}
+}
+
+func TestVerifC17_LastWinsVocabulary(t *testing.T) {
+	rapid.Check(t, propC17LastWinsVocabulary)
 }
